@@ -19,6 +19,36 @@ def judgeRun (documentedFatal : Bool) (shots minSamples maxSamples : Nat) (res :
   else if samples > maxSamples then s!"fail:count:{samples} samples, at most {maxSamples} expected for {shots} shots"
   else "ok"
 
+/-- "the affected request is reported as a sample carrying the received status or the failure": what the sample of
+a plain http request must carry, given the GROUND TRUTH of what the scripted target did with that request
+(`f` no response, `rb<st>` head then a broken body, `rbx<st>` the same by reset — the head may be lost too —,
+`r<st>` a complete response, `u` not known). `netNz`: the sample's net code is non-zero (a failure). -/
+def carryOk (truth : String) (proto : Nat) (netNz : Bool) : Bool :=
+  let num (pfx : String) : Option Nat :=
+    if pfx.toList.isPrefixOf truth.toList then (String.ofList (truth.toList.drop pfx.length)).toNat? else none
+  if truth == "u" then true
+  else if truth == "f" then proto == 0 && netNz
+  else match num "rbx", num "rb", num "r" with
+    | some st, _, _ => netNz && (proto == st || proto == 0)
+    | none, some st, _ => netNz && proto == st
+    | none, none, some st => !netNz && proto == st
+    | none, none, none => true
+
+/-- Verdict on the samples of a run of a plain http gun: `truths` maps a sample tag (hex) to the ground truth of its
+request, `agg` is the observed aggregate `taghex:proto:0|nz*count,…`. -/
+def judgeCarry (truths : List (String × String)) (agg : String) : String :=
+  let bad := (agg.splitOn ",").filterMap fun e =>
+    match (e.splitOn "*").headD "" |>.splitOn ":" with
+    | [tag, proto, net] =>
+      match truths.find? (·.1 == tag), proto.toNat? with
+      | some (_, truth), some p => if carryOk truth p (net != "0") then none else some s!"{tag} truth={truth} proto={proto} net={net}"
+      | none, _ => if tag == "" then none else some s!"{tag}: a sample for a request that was never sent"
+      | _, none => some s!"{e}: unreadable"
+    | _ => if e == "" then none else some s!"{e}: unreadable"
+  match bad with
+  | [] => "ok"
+  | b :: _ => s!"fail:carry:the sample does not carry the received status / the failure: {b}"
+
 /-- Verdict on a direct call of a response-processing function: it must return (value or error), never panic. -/
 def judgeCall (obs : String) : String :=
   if obs.startsWith "PANIC" || obs.startsWith "panic" then s!"fail:panic:{obs.take 120}" else "ok"
